@@ -3,6 +3,7 @@
 package main
 
 import (
+	"bytes"
 	"context"
 	"crypto/rand"
 	"encoding/json"
@@ -10,6 +11,7 @@ import (
 	"math"
 	"os"
 	"reflect"
+	"sort"
 	"strings"
 	"time"
 
@@ -298,8 +300,105 @@ func c17Backoff(c *ev.Ctx, k c17Case) {
 	}
 }
 
+// c17RepCase: an endpoint list in which an address appears more than once (legal: "try A, then B, then A again"); every
+// server is scripted per request it receives.
+type c17RepCase struct {
+	Repeated bool
+	List     []int      // server index per configured position
+	Script   [][]string // per server: answer names for its 1st, 2nd, ... request
+}
+
+func c17Repeated(c *ev.Ctx, k c17RepCase) {
+	c.Eval()
+	k.Repeated = true
+	answers := c17Answers()
+	for i, s := range c17Farm.servers {
+		s.reset()
+		s.mu.Lock()
+		s.ans = answer{Kind: "ok", Key: c17CertLines[0]}
+		if i < len(k.Script) {
+			for _, name := range k.Script[i] {
+				s.seqAns = append(s.seqAns, answers[name])
+			}
+		}
+		s.mu.Unlock()
+	}
+	var eps []string
+	for _, si := range k.List {
+		eps = append(eps, fmt.Sprintf("127.0.0.%d", si+1))
+	}
+	signer, err := crypki.NewSigner(crypki.SignerConfig{TLSClientKeyFile: c17PKI.ClientKeyFile, TLSClientCertFile: c17PKI.ClientCertFile, TLSCACertFiles: []string{c17PKI.CA1File},
+		CrypkiEndpoints: eps, CrypkiPort: uint(c17Farm.port), Retries: 1, PerTryTimeout: 15 * time.Second})
+	if err != nil {
+		c.Violation("C17:newsigner-refuses-valid-config", fmt.Sprintf("an endpoint list that names an address twice was refused: %v", err), k)
+		return
+	}
+	req := &proto.SSHCertificateSigningRequest{KeyMeta: &proto.KeyMeta{Identifier: "slot"}, Principals: []string{"alice"}, PublicKey: c17CertLines[0], Validity: 60}
+	ctx, cancel := context.WithTimeout(context.Background(), 120*time.Second)
+	defer cancel()
+	var certs []ssh.PublicKey
+	var serr error
+	if p := ev.Guard(func() { certs, _, serr = signer.Sign(ctx, req) }); p != "" {
+		c.Violation("C17:crash:"+ev.PanicSite(p), p, k)
+		return
+	}
+	// expected trace: positions in configured order until the first whose scripted answer yields certificates
+	seen := make([]int, len(c17Farm.servers))
+	var wantTrace []int
+	var wantBlobs [][]byte
+	for _, si := range k.List {
+		name := k.Script[si][min(seen[si], len(k.Script[si])-1)]
+		seen[si]++
+		wantTrace = append(wantTrace, si)
+		if blobs, _, ok := c17Ref(answers[name]); ok {
+			wantBlobs = blobs
+			break
+		}
+	}
+	type hit struct{ order, server int }
+	var hits []hit
+	for i, s := range c17Farm.servers {
+		s.mu.Lock()
+		for _, o := range s.Order {
+			hits = append(hits, hit{o, i})
+		}
+		s.mu.Unlock()
+	}
+	sort.Slice(hits, func(a, b int) bool { return hits[a].order < hits[b].order })
+	var gotTrace []int
+	for _, h := range hits {
+		gotTrace = append(gotTrace, h.server)
+	}
+	c.Outcome(fmt.Sprintf("repeated/list=%v/ok=%v", k.List, wantBlobs != nil))
+	c.Nontrivial(ev.JSON(k))
+	if fmt.Sprint(gotTrace) != fmt.Sprint(wantTrace) {
+		c.Violation("C17:repeated-endpoint:contact-order", fmt.Sprintf("configured positions %v (server per position): servers were contacted in the order %v, want %v", k.List, gotTrace, wantTrace), k)
+		return
+	}
+	if wantBlobs == nil {
+		if serr == nil {
+			c.Violation("C17:empty-success:endpoints=1:ctx=", "no position yields certificates, yet Sign succeeded", k)
+		}
+		return
+	}
+	if serr != nil {
+		c.Violation("C17:failover-fails", fmt.Sprintf("position %d of %v would have signed, Sign failed: %v", len(wantTrace)-1, k.List, serr), k)
+		return
+	}
+	if len(certs) != len(wantBlobs) {
+		c.Violation("C17:wrong-certificates", fmt.Sprintf("Sign returned %d certificates, the signing position sent %d", len(certs), len(wantBlobs)), k)
+		return
+	}
+	for i := range certs {
+		if !bytes.Equal(certs[i].Marshal(), wantBlobs[i]) {
+			c.Violation("C17:wrong-certificates", "Sign returned other certificates than the signing position sent", k)
+			return
+		}
+	}
+}
+
 func checkC17(c *ev.Ctx) {
-	c.Rule("real crypki.NewSigner / Sign (Retries=1; per-try deadline 15 s, 1.5 s for vectors with a blocked handler) against harness gRPC Signing servers over real TLS on 127.0.0.1..4:port, one scripted answer each: every answer vector (with a live context; lists up to length 2 also with an already cancelled / already expired context, blocked handlers with a 50 ms deadline, and blocked endpoints before a healthy one under a 30 s caller deadline) over endpoint lists of length 0..3 (quick; 6-answer alphabet {1/3 certificates with comments, Unavailable, Internal, empty key, one good line among bad}) and 0..4 (thorough; 13 answers incl. all status codes, 2 certificates, unparsable key, blocked handler in one position), nil and empty lists; one long-lived Signer per list length serves all vectors of that length (answers change between its calls); oracle from per-endpoint request logs (strict order, stop at first success, request proto-equal, certificates/comments parallel, never an empty success). Back-off: complete grid attempts {0..64, 2^k-1, 2^k, 2^k+1 (k<=32)} x base {0,1ns,1ms,2s,=max} x max {0,1ms,15s,1h,2^53ns} x multiplier {1,1+2^-52,1.5,3,10,1e9,MaxFloat64} x jitter {0,0.2,1} x jitter-seam answers {0,0.5,1-2^-53}. non-trivial = vector with at least one endpoint / grid point with attempt>0; distinct by vector")
+	c.Rule("real crypki.NewSigner / Sign (Retries=1; per-try deadline 15 s, 1.5 s for vectors with a blocked handler) against harness gRPC Signing servers over real TLS on 127.0.0.1..4:port, one scripted answer each: every answer vector (with a live context; lists up to length 2 also with an already cancelled / already expired context, blocked handlers with a 50 ms deadline, and blocked endpoints before a healthy one under a 30 s caller deadline) over endpoint lists of length 0..3 (quick; 6-answer alphabet {1/3 certificates with comments, Unavailable, Internal, empty key, one good line among bad}) and 0..4 (thorough; 13 answers incl. all status codes, 2 certificates, unparsable key, blocked handler in one position), nil and empty lists; 96 vectors over 6 endpoint lists that name an address more than once (servers scripted per request they receive; oracle: the global contact trace); one long-lived Signer per list length serves all vectors of that length (answers change between its calls); oracle from per-endpoint request logs (strict order, stop at first success, request proto-equal, certificates/comments parallel, never an empty success). Back-off: complete grid attempts {0..64, 2^k-1, 2^k, 2^k+1 (k<=32)} x base {0,1ns,1ms,2s,=max} x max {0,1ms,15s,1h,2^53ns} x multiplier {1,1+2^-52,1.5,3,10,1e9,MaxFloat64} x jitter {0,0.2,1} x jitter-seam answers {0,0.5,1-2^-53}. non-trivial = vector with at least one endpoint / grid point with attempt>0; distinct by vector")
 	c.Assume("configurations whose MaxDelay x (1+Jitter) is not representable as a time.Duration are outside the grid", "TLS/gRPC internals run with their own goroutines and real time; no timing oracle is used")
 	if c.ReplayCase != nil {
 		var k c17Case
@@ -308,6 +407,10 @@ func checkC17(c *ev.Ctx) {
 			c17Backoff(c, k)
 			return
 		}
+	}
+	repReplay := c17RepCase{}
+	if c.ReplayCase != nil {
+		json.Unmarshal(c.ReplayCase, &repReplay)
 	}
 	// back-off grid (no servers needed)
 	if c.ReplayCase == nil {
@@ -353,10 +456,30 @@ func checkC17(c *ev.Ctx) {
 	c17Farm = newFarm(c17PKI, 4)
 	defer c17Farm.stop()
 	if c.ReplayCase != nil {
+		if repReplay.Repeated {
+			c17Repeated(c, repReplay)
+			return
+		}
 		var k c17Case
 		json.Unmarshal(c.ReplayCase, &k)
 		c17Run(c, k)
 		return
+	}
+	// endpoint lists that name an address more than once: every position is a contact of its own
+	{
+		fails := []string{"unavailable", "internal", "empty-key", "bad-key"}
+		nrep := 0
+		for _, list := range [][]int{{0, 1, 0}, {0, 0}, {0, 1, 1, 0}, {1, 0, 1}, {0, 0, 0}, {0, 1, 0, 1}} {
+			for _, f := range fails {
+				// every server fails its first request and signs its second / everything fails / the first contact signs
+				c17Repeated(c, c17RepCase{List: list, Script: [][]string{{f, "ok1"}, {f, f, "ok3"}}})
+				c17Repeated(c, c17RepCase{List: list, Script: [][]string{{f}, {f}}})
+				c17Repeated(c, c17RepCase{List: list, Script: [][]string{{"ok2"}, {f}}})
+				c17Repeated(c, c17RepCase{List: list, Script: [][]string{{f, f, "mixed"}, {f, "ok1"}}})
+				nrep += 4
+			}
+		}
+		c.Set("repeated_endpoint_vectors", nrep)
 	}
 	alpha := []string{"ok1", "unavailable", "internal", "empty-key", "mixed", "ok3"}
 	maxLen := 3
